@@ -283,12 +283,12 @@ def _frame_obligations(E, c, s, entry, entry_frame, tag):
 
 
 def _discharge_all(E, rep):
-    axioms = E.axioms_now()
+    axioms = E.axioms_now(wf=False)
     both = E.tier == "thorough"
     timeout = solve.QUICK_MS * (6 if both else 1)
     for o in E.obls:
         if o.status is None:
-            r = solve.discharge(axioms, o.pc, o.goal, timeout_ms=timeout, both=both)
+            r = solve.discharge(axioms, o.pc, o.goal, timeout_ms=timeout, both=both, wf_axioms=E.wf_axioms)
             o.status, o.backend, o.secs, o.reason = r.status, r.backend, r.secs, r.reason
             if r.status == "refuted":
                 if getattr(o, "tainted", None):
